@@ -104,6 +104,27 @@ def logStats (P : ParkP) (k : Park) (dt : Rat) : Park :=
       else k
     { k' with frac := frac, currExp := 0, currExpCar := 0, currDur := 0, nConsec := 0 }
 
+/-! ### Network / system level EV indices (relsad/reliability/indices/ev.py) -/
+
+/-- what the indices read from one park: number of cars, accumulated expected interruptions, number of completed
+interruptions, accumulated interruption duration (hours) -/
+structure ParkStat where
+  cars : Rat
+  accExp : Rat
+  accNum : Rat
+  accDur : Rat
+deriving Repr, Inhabited
+
+def totalCars (ps : List ParkStat) : Rat := (ps.map (·.cars)).sum
+
+/-- `EV_Interruption`: the car-weighted average of the parks' accumulated expected interruptions (0 without cars) -/
+def evInterruption (ps : List ParkStat) : Rat :=
+  if totalCars ps = 0 then 0 else (ps.map (fun k => k.accExp * k.cars)).sum / totalCars ps
+
+/-- `EV_Duration`: accumulated interruption duration per completed interruption (0 without interruptions) -/
+def evDuration (ps : List ParkStat) : Rat :=
+  if (ps.map (·.accNum)).sum = 0 then 0 else (ps.map (·.accDur)).sum / (ps.map (·.accNum)).sum
+
 /-- `EVPark.reset_status` (between Monte Carlo iterations, saving on or off): no cars, no exchange, every
 interruption counter — running and accumulated — back to zero -/
 def reset (_k : Park) : Park := {}
